@@ -131,6 +131,19 @@ PROPS["C08"] = {
     "assumptions": ["bcrypt inputs restricted to NUL-free strings of <=72 bytes, pbkdf2 keys >=16 bytes (limits of the primitives, not galene's claim)"],
 }
 
+PROPS["C09"] = {
+    "units": [
+        rapid("stateful-scope", "token", "TestVerif_C09_StatefulScope", 3000, 20000),
+        rapid("signed-tokens", "token", "TestVerif_C09_SignedTokens", 2500, 15000),
+        rapid("match-agreement", "token", "TestVerif_C09_MatchAgreement", 8000, 60000),
+        rapid("token-login-username", "group", "TestVerif_C09_TokenLoginUsername", 1500, 10000),
+        rapid("global-admin-token", "webserver", "TestVerif_C09_GlobalAdminToken", 1500, 10000),
+    ],
+    "technique": "property-based testing (rapid) against a reference decision; tokens generated from a valid one outwards",
+    "assumptions": ["instants within 10 s of a validity boundary are not generated (real clock; JWT leeway is 5 s)",
+                    "signing keys are random per run; verdicts do not depend on them"],
+}
+
 NOT_APPLICABLE = {}
 
 ENGINES = [
